@@ -139,6 +139,8 @@ class set_impl {
   void clear() {
     m_comm.barrier();
     m_local_set.clear();
+    // No rank may return (and insert again) before every rank has cleared
+    m_comm.cf_barrier();
   }
 
   size_type size() {
@@ -156,6 +158,8 @@ class set_impl {
   void swap(self_type &s) {
     m_comm.barrier();
     m_local_set.swap(s.m_local_set);
+    // No rank may return (and insert again) before every rank has swapped
+    m_comm.cf_barrier();
   }
 
   typename ygm::ygm_ptr<self_type> get_ygm_ptr() const { return pthis; }
